@@ -123,6 +123,9 @@ def run(ctx):
                  "Rule\tPZ\t1960\tmax\t-\tApr\tSun>=1\t2:00\t1:00\tD\nRule\tPZ\t1960\tmax\t-\tApr\tSun>=22\t2:00\t0\tS\n"
                  "Zone\tTest/NotedAndRemoved\t5:07:00\t-\tLMT\t1950\n\t\t\t5:07\tPZ\tZ%sT\n"
                  "Link\tAfrica/Monrovia\tTest/Alias\n", 1965, 2000))
+    # the names source of C11 (identifiers that collide after normalisation, links to zones that get removed, '+', '-', '_')
+    import c11 as _c11
+    srcs.append(("names", _c11.NAMES_SOURCE, 2000, 2050))
     jobs = []
     for label, src, sy, uy in srcs:
         for scope in ("extended", "basic"):
